@@ -63,8 +63,10 @@ theorem C14memo_world_purity (S : Spec ρ κ ν) (hF : Faithful S) (q : Reqs ρ)
     rw [hb]; exact Props.C14.C14_heap_unchanged T w₀ _
   have hf : (runM S q T (freshM w₀) ops).base.frames = w₀.frames := by
     rw [hb]; exact Props.C14.C14_frames_unchanged T w₀ _
+  have hsd : (runM S q T (freshM w₀) ops).base.seed = w₀.seed := by
+    rw [hb]; exact Props.C14.C14_seed_unchanged T w₀ _
   clear hb
-  generalize runM S q T (freshM w₀) ops = mw at hs hh hf
+  generalize runM S q T (freshM w₀) ops = mw at hs hh hf hsd
   unfold encodeCtorM
   rw [hh, hf]
   show (match construct w₀.heap w₀.frames c with
@@ -76,7 +78,7 @@ theorem C14memo_world_purity (S : Spec ρ κ ν) (hF : Faithful S) (q : Reqs ρ)
   | ok d =>
     simp only
     rw [(askAll_sound S hF _ _ hs).2, (askAll_sound S hF _ _ (sound_nil S)).2,
-      Proofs.World.encodeDoc_outcome T d hh hf]
+      Proofs.World.encodeDoc_outcome T d hsd hh hf]
   | error e => rfl
 
 /-- Keyed by the exact request: faithful. -/
